@@ -209,7 +209,13 @@ func newOcspWorld(cfg OcspCfg, seed int64) *ocspWorld {
 	w.stranger = pki.NewCA(pki.CAOpts{Name: "Unrelated Stranger CA", Serial: 900})
 	closed := origin.ClosedPortURL()
 	for ci, c := range []string{"cA", "cB"} {
-		iss := pki.NewCA(pki.CAOpts{Name: "OCSP Issuer " + c, Serial: int64(200 + ci)})
+		io := pki.CAOpts{Name: "OCSP Issuer " + c, Serial: int64(200 + ci)}
+		if ci == 1 && (seed/3)%2 == 0 {
+			// key identifiers are free-form octets: in every other world the second issuer carries the first one's
+			// (different name, different key, same identifier, same subject and serial of the leaves)
+			io.SKI = w.issuers["cA"].Cert.SubjectKeyId
+		}
+		iss := pki.NewCA(io)
 		w.issuers[c] = iss
 		w.siblings[c] = pki.NewCA(pki.CAOpts{Name: "OCSP Issuer " + c, Serial: int64(210 + ci), SKI: iss.Cert.SubjectKeyId})
 		w.deleg[c] = pki.NewCA(pki.CAOpts{Name: "Delegated Responder " + c, Parent: iss, NotCA: true, KeyUsage: x509.KeyUsageDigitalSignature, ExtKU: []x509.ExtKeyUsage{x509.ExtKeyUsageOCSPSigning}, Serial: int64(220 + ci)})
